@@ -324,7 +324,7 @@ func corrC07(out string, seed uint64, tier string, replay string) *report {
 		for k := 0; k <= len(h); k++ {
 			// every prefix of a short string; of a long one the first 64 and those that end in a delimiter (registering
 			// all 65536 prefixes of a long hash is quadratic work for nothing)
-			if k <= 64 || h[k-1] == '$' || h[k-1] == ',' && k < 4096 {
+			if k <= 64 || (h[k-1] == '$' || h[k-1] == ',') && k < 2048 {
 				add(h[:k])
 			}
 		}
